@@ -3,6 +3,7 @@
 An oracle is a function (case, rec, an, streams) -> (violations [(key, what)], stats {name: int}) that runs inside
 the forked child, on the bytes of the output file (side-band data only names things / cross-validates)."""
 import collections
+import os
 
 from . import compile as C
 from . import core, isolate, outfile, sweep
@@ -130,6 +131,10 @@ def run(ctx, oracle, level, rule, assumptions, plan=None, nontrivial_stat=None, 
     core.bind_repo()
     plan = plan or sweep.default_plan(ctx.tier)
     lv = sweep.levels(ctx.tier, plan)
+    only = os.environ.get("VERIF_ONLY_LEVELS")  # development aid (never set by a registered command): restrict the sweep to the named levels
+    if only:
+        lv = [(n, cs) for n, cs in lv if any(n.startswith(o) for o in only.split(","))]
+        extra_cases = [] if "forced" not in only else extra_cases
     cases = []
     sizes = {}
     for name, cs in lv:
